@@ -220,9 +220,10 @@ def main(argv=None):
     discharged = 0
     under_exclusion = 0
     bounded_ok = 0
+    is_bounded = lambda o_: bool(o_.get("bounded")) or o_.get("kind") == "bounded" or o_["status"] == "bounded-ok"
     for o in obligations:
         if o["status"] == "proved":
-            if o.get("bounded"):
+            if is_bounded(o):
                 bounded_ok += 1      # BOUNDED stand-in (DESIGN 2.8): checked, listed, never counted as proved
             else:
                 discharged += 1
@@ -320,7 +321,8 @@ def main(argv=None):
             "engine_errors": engine_errors,
             "missing_vs_lock": really_missing,
             "known_findings": [r for r in kf_results],
-            "bounded": list(getattr(pack, "BOUNDED", [])) + [{"id": o["id"], "status": o["status"], "instances": o["vcs"]} for o in obligations if o.get("bounded")],
+            "bounded": list(getattr(pack, "BOUNDED", [])) + [{"id": o["id"], "status": o["status"], "bound": o.get("bound", ""), "instances": o["vcs"]}
+                                                              for o in obligations if is_bounded(o)],
             "obligation_list": [{"id": o["id"], "status": o["status"], "vcs": o["vcs"]} for o in obligations],
             "dropped_by_extraction": ["docstrings", "type annotations (sort hints only)", "logger.* statements (PY-LOG)",
                                       "del statements"],
